@@ -4,7 +4,8 @@
    Model: Model/HintPrim.v (string primitives over classified code points), Gen/GenHint.v
    (_parse_hint_content, REGENERATED from the source on every run), Model/Hint.v (recover / resolve),
    Model/HintStore.v (the metadata directory + pointer as a sequential machine with ghost `published`
-   flags).  The model is that of the REPAIRED code (fix commits 5fd880e, 9ac6748 on the library branch).
+   flags).  The model is that of the REPAIRED code (fix commits 5fd880e, 9ac6748, a9fa40b on the library
+   branch agent/c10).
 
    One part of the property's text is NOT true of the code and is not claimed: a STALE pointer (one that
    names an existing, older version) is trusted as it is.  Following DESIGN.md section 4 this file keeps
